@@ -160,7 +160,11 @@ func v28num(tag string, lo, hi int64) (v Value, wide bool) {
 			sign = -1
 		}
 		coef := rt.U64Range(tag+".coef", v28coefMin, v28coefMax)
-		exp := rt.IntRange(tag+".exp", -3, 22)
+		elo := -3
+		if lo == math.MinInt64 {
+			elo = 14 // (wide harnesses: the decimals near the 17..19-digit integers)
+		}
+		exp := rt.IntRange(tag+".exp", elo, 22)
 		return SuDnum{Dnum: dnum.Raw(sign, coef, exp)}, false
 	case 2:
 		return SuDnum{Dnum: dnum.Zero}, false
@@ -230,32 +234,53 @@ func VerifC28NumOrder() {
 // C28 numbers, integers of 17..19 digits: the conversion to a 16-digit decimal inside Compare
 // is lossy there.
 //
-//symgo:harness prop=C28 tier=quick arith=int shards=8 tshards=16 timeout=300 ttimeout=1700 qtimeout=30000 summary=util/dnum.FromInt=v28sumFromInt bounds=as_VerifC28NumOrder_with_any_int64_and_at_least_one_integer_of_17..19_digits
+//symgo:harness prop=C28 tier=quick arith=int shards=8 tshards=16 timeout=300 ttimeout=1700 qtimeout=30000 summary=util/dnum.FromInt=v28sumFromInt bounds=as_VerifC28NumOrder_with_any_int64,at_least_one_integer_of_17..19_digits,decimal_exponents_14..22
 func VerifC28NumOrderWide() {
 	v28numOrder(math.MinInt64, math.MaxInt64, true)
 }
 
 // C28 numbers: pairs: Equal is symmetric and Equal numbers compare as equal.
 //
-//symgo:harness prop=C28 tier=quick arith=int shards=4 tshards=8 timeout=300 ttimeout=1700 qtimeout=30000 summary=util/dnum.FromInt=v28sumFromInt bounds=pairs_of_the_values_of_VerifC28NumOrder_(integers_|n|<10^16)
+//symgo:harness prop=C28 tier=quick arith=int shards=8 tshards=8 timeout=300 ttimeout=1700 qtimeout=30000 summary=util/dnum.FromInt=v28sumFromInt bounds=pairs_of_the_values_of_VerifC28NumOrder_(integers_|n|<10^16)
 func VerifC28NumEqual() {
 	v28numEqual(-v28exact, v28exact, false)
 }
 
-// C28 numbers, pairs with an integer of 17..19 digits.
+// C28 numbers, pairs with an integer of 17..19 digits: a SuInt64 against the decimals of that
+// magnitude (exponent 16..20), both directions of Equal.
 //
-//symgo:harness prop=C28 tier=quick arith=int shards=4 tshards=8 timeout=300 ttimeout=1700 qtimeout=30000 summary=util/dnum.FromInt=v28sumFromInt bounds=pairs_of_the_values_of_VerifC28NumOrderWide_(at_least_one_integer_of_17..19_digits)
+//symgo:harness prop=C28 tier=quick arith=int shards=1 timeout=400 qtimeout=30000 summary=util/dnum.FromInt=v28sumFromInt bounds=SuInt64_of_17..19_digits_against_any_finite_16-digit_decimal_with_exponent_16..20
 func VerifC28NumEqualWide() {
-	v28numEqual(math.MinInt64, math.MaxInt64, true)
+	n := rt.I64Range("a.n", math.MinInt64, math.MaxInt64)
+	rt.Assume(n < -v28exact || n > v28exact)
+	a := SuInt64{int64: n}
+	sign := int8(1)
+	if rt.Bool("b.neg") {
+		sign = -1
+	}
+	coef := rt.U64Range("b.coef", v28coefMin, v28coefMax)
+	b := SuDnum{Dnum: dnum.Raw(sign, coef, rt.Pick("b.exp", 5)+16)}
+	eab, eba := a.Equal(b), b.Equal(a)
+	rt.Reach("compared")
+	rt.Observe("eab", eab)
+	rt.Observe("eba", eba)
+	rt.Assert("num/equal-symmetric", eab == eba)
+	if eab || eba {
+		rt.Reach("equal-pair")
+		rt.Assert("num/equal-implies-compare-0", a.Compare(b) == 0 && b.Compare(a) == 0)
+	}
 }
 
 // C28 numbers, anchor: an integer against a decimal that holds an integer value m exactly
 // compares as n against m (so the order of the numeric classes is the numeric order).
 //
-//symgo:harness prop=C28 tier=quick arith=int shards=4 timeout=300 qtimeout=30000 summary=util/dnum.FromInt=v28sumFromInt bounds=integer_|n|<10^16_against_every_decimal_holding_an_integer_|m|<10^16
+//symgo:harness prop=C28 tier=quick arith=int shards=2 timeout=300 qtimeout=30000 summary=util/dnum.FromInt=v28sumFromInt ttimeout=1700 bounds=integer_|n|<10^16_against_every_decimal_holding_an_integer_m_of_16,15,9,5_or_1_digits_(thorough:1..16_digits)
 func VerifC28NumExact() {
-	n := rt.I64Range("n", -v28exact, v28exact)
 	p := rt.Pick("p", 16) // m has 16-p digits
+	if !rt.Thorough() {
+		rt.Assume(p == 0 || p == 1 || p == 7 || p == 11 || p == 15)
+	}
+	n := rt.I64Range("n", -v28exact, v28exact)
 	pow := uint64(1)
 	for i := 0; i < p; i++ {
 		pow *= 10
@@ -401,14 +426,14 @@ func VerifC28NumLookup() {
 // C28 numbers: Equal numbers hash equally and find each other's members - integers in any
 // representation, and decimals against integers in the small-int range.
 //
-//symgo:harness prop=C28 tier=quick arith=int shards=4 timeout=300 bounds=x:any_small_int_or_any_SuInt64;y:small_int|SuInt64|decimal_zero|every_normalized_decimal_holding_a_non-zero_integer_of_the_int16_range outside=decimal_against_an_integer_outside_int16_(VerifC28NumHashWide)
+//symgo:harness prop=C28 tier=quick arith=int shards=1 timeout=300 bounds=x:any_small_int_or_any_SuInt64;y:small_int|SuInt64|decimal_zero|every_normalized_decimal_holding_a_non-zero_integer_of_the_int16_range outside=decimal_against_an_integer_outside_int16_(VerifC28NumHashWide)
 func VerifC28NumHash() {
 	v28numHash()
 }
 
 // C28 numbers: a SuInt64 outside the int16 range against the Equal decimal.
 //
-//symgo:harness prop=C28 tier=quick shards=4 timeout=300 bounds=x:SuInt64_outside_int16;y:any_finite_16-digit_decimal_with_exponent_16..19,or_the_decimal_of_n_in_{32768,-32769,100000,-1000000,123456789}
+//symgo:harness prop=C28 tier=quick shards=1 timeout=300 bounds=x:SuInt64_outside_int16;y:any_finite_16-digit_decimal_with_exponent_16..19,or_the_decimal_of_n_in_{32768,-32769,100000,-1000000,123456789}
 func VerifC28NumHashWide() {
 	v28numHashWide()
 }
@@ -586,6 +611,12 @@ func v28pair(a, b Value, ma, mb v28m) {
 	rt.Assert("equal/implies-compare-0", cab == 0)
 	rt.Assert("hash/equal-values-same-hash", a.Hash() == b.Hash())
 	rt.Assert("hash/equal-values-same-hash2", a.Hash2() == b.Hash2())
+	if ma.kind == v28Dec && mb.kind == v28Dec {
+		// (two Equal decimals are field-wise identical; the slot search with their symbolic
+		// 64-bit hash costs a thousand multiplier queries, so the lookup is left to the
+		// numeric harnesses)
+		return
+	}
 	ob := &SuObject{}
 	ob.Set(a, SuInt(7))
 	g := ob.Get(nil, b)
@@ -595,7 +626,7 @@ func v28pair(a, b Value, ma, mb v28m) {
 
 // C28 all kinds: every pair of kinds with symbolic payloads.
 //
-//symgo:harness prop=C28 tier=quick shards=16 timeout=300 ttimeout=1700 bounds=pairs_of:boolean|small_int|SuInt64_(any)|finite_decimal_(any_16-digit_coefficient,exponent_<=0_or_>=16)|SuStr,SuConcat_(every_split),SuExcept_of_0..2_bytes_(thorough_0..3)|SuDate,SuTimestamp_(any_field_bits)|object_with_0..1_small-int_list_members outside=integer_against_decimal_and_decimals_with_exponent_1..15_(numeric_harnesses);hash_of_two_Equal_decimals_with_exponent_1..15;longer_strings;nested_objects_(VerifC28Objects)
+//symgo:harness prop=C28 tier=quick shards=16 timeout=300 ttimeout=1700 bounds=pairs_of:boolean|small_int|SuInt64_(any)|finite_decimal_(any_16-digit_coefficient,exponent_<=0_or_>=16)|SuStr,SuConcat_(every_split),SuExcept_of_0..2_bytes_(thorough_0..3)|SuDate,SuTimestamp_(any_field_bits)|object_with_0..1_small-int_list_members outside=integer_against_decimal_and_decimals_with_exponent_1..15_(numeric_harnesses);hash_of_two_Equal_decimals_with_exponent_1..15;member_lookup_with_two_decimal_keys;longer_strings;nested_objects_(VerifC28Objects)
 func VerifC28Pairs() {
 	maxLen := 2
 	if rt.Thorough() {
@@ -719,7 +750,7 @@ func v28obPair(a, b Value, ma, mb v28obm) {
 // C28 objects: pairs of objects/records with list members and at most one named member, or two
 // named members inserted in the same order.
 //
-//symgo:harness prop=C28 tier=quick shards=8 timeout=300 ttimeout=1700 bounds=pairs_of_object|record_with_0..1_(thorough_0..2)_small-int_list_members_and_named_members_from_{none,{-1},{5},{-1,5}_inserted_in_this_order};values_-128..127 outside=named_members_inserted_in_different_orders_(VerifC28ObjectHashOrder);nested_objects
+//symgo:harness prop=C28 tier=quick shards=4 timeout=300 ttimeout=1700 bounds=pairs_of_object|record_with_0..1_(thorough_0..2)_small-int_list_members_and_named_members_from_{none,{-1},{5},{-1,5}_inserted_in_this_order};values_-128..127 outside=named_members_inserted_in_different_orders_(VerifC28ObjectHashOrder);nested_objects
 func VerifC28Objects() {
 	maxL := 1
 	if rt.Thorough() {
@@ -733,7 +764,7 @@ func VerifC28Objects() {
 
 // C28 objects: the same two named members inserted in opposite orders.
 //
-//symgo:harness prop=C28 tier=quick shards=2 timeout=300 bounds=pairs_of_object|record_with_0..1_list_members_and_named_members_-1_and_5_inserted_in_opposite_orders;values_any_int8
+//symgo:harness prop=C28 tier=quick shards=1 timeout=300 bounds=pairs_of_object|record_with_0..1_list_members_and_named_members_-1_and_5_inserted_in_opposite_orders;values_any_int8
 func VerifC28ObjectHashOrder() {
 	a, ma := v28object("a", 1, []int{-1, 5})
 	b, mb := v28object("b", 1, []int{5, -1})
